@@ -135,6 +135,8 @@ pub struct Exec<A: Ar> {
     pub cow: bool,
     /// issue truncate although other arena values / owned handles are alive (they legally can be)
     pub shared_truncate: bool,
+    /// the current copy-on-write session was opened with a read-only file descriptor
+    pub cow_ro_fd: bool,
     pub rewound: bool,
     pub dead: bool,
     pub step: usize,
@@ -206,6 +208,7 @@ impl<A: Ar> Exec<A> {
             ro: false,
             cow: false,
             shared_truncate: false,
+            cow_ro_fd: false,
             rewound: false,
             dead: false,
             step: 0,
@@ -827,6 +830,9 @@ impl<A: Ar> Exec<A> {
                 unsafe { a.rewind(ap) };
                 let post = a.snap();
                 self.stats.rewinds += 1;
+                if post.discarded < pre.discarded {
+                    self.v("C20", "decreased", format!("rewind({:?}): discarded() went from {} down to {}", pos, pre.discarded, post.discarded));
+                }
                 if post.allocated as usize != target {
                     self.v("C17", "rewind_position", format!("rewind({:?}) with allocated={} cap={} data_offset={}: cursor is {}, reference clamp gives {}", pos, cur, cap, d0, post.allocated, target));
                 }
@@ -1257,6 +1263,11 @@ impl<A: Ar> Exec<A> {
         // ---- reopen
         let mut opts = self.cfg.options().with_read(true);
         let stored_cap = d.capacity as u32;
+        // a copy-on-write mapping needs no write access to the file: some sessions open it with a read-only
+        // descriptor (the file then cannot be grown: no larger capacity at open, and a growing truncate of such a
+        // session has to fail cleanly)
+        let cow_ro_fd = mode % 4 == 1 && (self.step + 2 * self.stats.reopens as usize) % 3 == 1 && (d.capacity as u64 + self.cfg.offset) <= std::fs::metadata(&path).map(|m| m.len()).unwrap_or(0);
+        let capk = if cow_ro_fd && capk % 4 == 1 { 0 } else { capk };
         opts = match capk % 4 {
             0 => opts.with_capacity(stored_cap),
             1 => opts.with_capacity(stored_cap + 64 + (self.step as u32 % 3) * 4096),
@@ -1284,9 +1295,22 @@ impl<A: Ar> Exec<A> {
             }
         }
         let via_builder = (self.step + self.stats.reopens as usize) % 3 == 0;
-        let opts = if mode % 4 < 2 { opts.with_write(true) } else { opts };
+        self.cow_ro_fd = cow_ro_fd;
+        let opts = if mode % 4 < 2 && !cow_ro_fd { opts.with_write(true) } else { opts };
+        // read-only opens are documented to clear write / truncate / append / create_new of the Options they get
+        let opts = if mode % 4 >= 2 {
+            match (self.step + self.stats.reopens as usize) % 5 {
+                1 => opts.with_write(true).with_truncate(true),
+                2 => opts.with_append(true),
+                3 => opts.with_write(true),
+                _ => opts,
+            }
+        } else {
+            opts
+        };
         // `create` on an existing file must open it as it is
-        let opts = if self.step % 4 == 1 { opts.with_create(true) } else { opts };
+        // (not with a read-only descriptor: `create` without write access is an error of OpenOptions itself)
+        let opts = if self.step % 4 == 1 && !cow_ro_fd { opts.with_create(true) } else { opts };
         let r: std::io::Result<A> = open_file::<A>(opts, mode, &path, via_builder);
         self.stats.reopens += 1;
         let arena = match r {
@@ -1403,6 +1427,23 @@ impl<A: Ar> Exec<A> {
             return self.obs("noop".into(), None, None);
         };
         self.stats.truncates += 1;
+        if let Err(e) = &r {
+            // before anything is read through the arena: a failed truncate must not have released the mapping that
+            // every arena value and handle points into (judged with mincore on the base address, nothing is touched)
+            let a = self.arenas[idx].as_ref().unwrap();
+            if self.path.is_some() || self.cfg.backend == crate::arena::Backend::Anon {
+                let mapped = unsafe {
+                    let page = (a.raw_ptr() as usize) & !4095;
+                    let mut vec = [0u8; 1];
+                    libc::mincore(page as *mut libc::c_void, 1, vec.as_mut_ptr()) == 0
+                };
+                if !mapped {
+                    self.v("C13", "early_teardown", format!("[failed-truncate] truncate({}) failed ({}) and released the backing memory while {} arena values / handles are alive", n, e, self.live_arenas() + self.live.len()));
+                    self.dead = true;
+                    return Obs { result: "crash:unmapped".into(), ..Default::default() };
+                }
+            }
+        }
         self.install_hook();
         if shared && r.is_ok() {
             // Every other arena value and every owned handle must still refer to the memory the arena now uses.
@@ -1440,6 +1481,15 @@ impl<A: Ar> Exec<A> {
             return self.obs("err:readonly".into(), None, None);
         }
         if let Err(e) = &r {
+            if self.cow && self.cow_ro_fd && (n as usize) > pre_cap {
+                // the file cannot be grown through a read-only descriptor: the call may fail, but then it fails
+                // without effect - same state, and the mapping every arena value and handle points into still exists
+                let a = self.a();
+                if a.capacity() != pre_cap || a.snap() != pre {
+                    self.v("C18", "failed_truncate_had_effect", format!("truncate({}) failed ({}) but changed the arena: capacity {} -> {}", n, e, pre_cap, a.capacity()));
+                }
+                return self.obs("err:io".into(), None, None);
+            }
             self.v("C18", "truncate_failed", format!("truncate({}) failed: {}", n, e));
             return self.obs("err:io".into(), None, None);
         }
